@@ -128,8 +128,36 @@ theorem copyInst_readable (L : Layout) (n : Node) (deep : Bool) (x : Inst) (hg :
     · cases hd : x.dict <;> simp_all
 
 def isCopyOp : Op → Bool
-  | .copy _ | .deepcopy _ | .pickle _ => true
+  | .copy _ | .deepcopy _ | .pickle _ | .assoc _ _ => true
   | _ => false
+
+theorem readCell_vals (L : Layout) (y : Inst) (vs : List Nat) :
+    readCell L { y with vals := vs } = readCell L y := by
+  unfold readCell; cases L.hasSlot <;> simp
+
+/-- `assoc` never hands over a populated cache -/
+theorem assocInst_not_full (L : Layout) (x : Inst) (ch : List (Nat × Nat)) (h : List Nat) :
+    readCell L (assocInst L x ch) ≠ .full h := by
+  unfold assocInst
+  simp only [readCell_vals]
+  cases hc : readCell L (copyInst L false x) with
+  | absent => simp [readCell_vals, hc]
+  | empty => simp [readCell_vals, hc]
+  | full h' => simp [readCell_writeCell]
+
+theorem assocInst_readable (L : Layout) (x : Inst) (ch : List (Nat × Nat))
+    (hx : readCell L (copyInst L false x) ≠ .absent) : readCell L (assocInst L x ch) ≠ .absent := by
+  unfold assocInst
+  simp only [readCell_vals]
+  cases hc : readCell L (copyInst L false x) with
+  | absent => exact absurd hc hx
+  | empty => simp [readCell_vals, hc]
+  | full h' => simp [readCell_writeCell]
+
+theorem assocInst_unreadable (L : Layout) (x : Inst) (ch : List (Nat × Nat))
+    (hx : readCell L (copyInst L false x) = .absent) : readCell L (assocInst L x ch) = .absent := by
+  unfold assocInst
+  simp only [readCell_vals, hx]
 
 theorem mem_set_ne {α : Type} (l : List α) (i : Nat) (a y : α) (h : y ∈ l.set i a) : y = a ∨ y ∈ l := by
   rcases List.mem_or_eq_of_mem_set h with h | h
@@ -195,6 +223,16 @@ theorem step_readable (c : Case) (L : Layout) (n : Node) (insts : List Inst) (op
       rcases hy with hy | rfl
       · exact hr' y hy
       · rw [newInst_read L n _ hg hc h1 h2]; simp
+  | assoc i ch =>
+    simp only [step] at hy
+    cases hx : insts[i]? with
+    | none => simp only [hx] at hy; exact hr' y hy
+    | some x =>
+      simp only [hx, List.mem_append, List.mem_singleton] at hy
+      rcases hy with hy | rfl
+      · exact hr' y hy
+      · exact assocInst_readable L x ch
+          (copyInst_readable L n false x hg hc h1 hok (hu rfl) (hr' x (List.mem_of_getElem? hx)))
   | set i f v =>
     simp only [step] at hy
     cases hx : insts[i]? with
@@ -213,7 +251,7 @@ def stale (p : Op × Res) : Bool := isHashOp p.1 && p.2.out == .ok && !p.2.sameU
 
 theorem step_length (c : Case) (L : Layout) (insts : List Inst) (op : Op) :
     (step c L insts op).2.length = insts.length + (match op with
-      | .copy i | .deepcopy i | .pickle i | .evolve i _ => if i < insts.length then 1 else 0
+      | .copy i | .deepcopy i | .pickle i | .evolve i _ | .assoc i _ => if i < insts.length then 1 else 0
       | _ => 0) := by
   cases op with
   | hash i alt =>
@@ -235,6 +273,11 @@ theorem step_length (c : Case) (L : Layout) (insts : List Inst) (op : Op) :
     | none => have := List.getElem?_eq_none_iff.1 hx; simp; omega
     | some x => have := (List.getElem?_eq_some_iff.1 hx).1; simp [this]
   | evolve i ch =>
+    simp only [step]
+    cases hx : insts[i]? with
+    | none => have := List.getElem?_eq_none_iff.1 hx; simp; omega
+    | some x => have := (List.getElem?_eq_some_iff.1 hx).1; simp [this]
+  | assoc i ch =>
     simp only [step]
     cases hx : insts[i]? with
     | none => have := List.getElem?_eq_none_iff.1 hx; simp; omega
@@ -296,6 +339,12 @@ theorem specOps_run_gen (c : Case) (L : Layout) (n : Node) (hg : L.hres = .gen n
       apply ih _ hashed (step_readable c L n insts _ hg h1 h2 hok (by simp [isCopyOp]) hr)
       · rw [hlen]; simpa [hwf.1.1] using hwf.2
       · exact hst.2
+    | assoc i ch =>
+      simp only [wfOps, Bool.and_eq_true, decide_eq_true_eq] at hwf
+      refine ⟨by simp [specOp], ?_⟩
+      apply ih _ hashed (step_readable c L n insts _ hg h1 h2 hok (fun _ => hwf.1.1.2) hr)
+      · rw [hlen]; simpa [hwf.1.1.1] using hwf.2
+      · exact hst.2
     | set i f v =>
       simp only [wfOps, Bool.and_eq_true, decide_eq_true_eq] at hwf
       refine ⟨by simp [specOp], ?_⟩
@@ -352,6 +401,11 @@ theorem specOps_run_nongen (c : Case) (L : Layout) (hng : ∀ n, L.hres ≠ .gen
       refine ⟨by simp [specOp], ?_⟩
       apply ih _ hashed
       rw [hlen]; simpa [hwf.1.1] using hwf.2
+    | assoc i ch =>
+      simp only [wfOps, Bool.and_eq_true, decide_eq_true_eq] at hwf
+      refine ⟨by simp [specOp], ?_⟩
+      apply ih _ hashed
+      rw [hlen]; simpa [hwf.1.1.1] using hwf.2
     | set i f v =>
       simp only [wfOps, Bool.and_eq_true, decide_eq_true_eq] at hwf
       refine ⟨by simp [specOp], ?_⟩
@@ -419,6 +473,9 @@ theorem step_cellFull (c : Case) (L : Layout) (insts : List Inst) (op : Op) (i :
       simp only [step]
       cases hy : insts[j]? <;> simp [hx, h, List.getElem?_append_left hi]
     | evolve j ch =>
+      simp only [step]
+      cases hy : insts[j]? <;> simp [hx, h, List.getElem?_append_left hi]
+    | assoc j ch =>
       simp only [step]
       cases hy : insts[j]? <;> simp [hx, h, List.getElem?_append_left hi]
     | set j f v =>
@@ -492,6 +549,7 @@ theorem computes_bound (c : Case) (L : Layout) (n : Node) (hg : L.hres = .gen n)
       | deepcopy j => simp [isHashOn] at hhead
       | pickle j => simp [isHashOn] at hhead
       | evolve j ch => simp [isHashOn] at hhead
+      | assoc j ch => simp [isHashOn] at hhead
       | set j f v => simp [isHashOn] at hhead
     · simp only [hhead, Bool.false_eq_true, if_false, Nat.zero_add]
       by_cases hf : cellFull L insts i = true
@@ -700,6 +758,7 @@ theorem runOps_never_raises (c : Case) (L : Layout) (n : Node) (hg : L.hres = .g
       | deepcopy i => simp [isHashOp] at hh
       | pickle i => simp [isHashOp] at hh
       | evolve i ch => simp [isHashOp] at hh
+      | assoc i ch => simp [isHashOp] at hh
       | set i f v => simp [isHashOp] at hh
     · cases op with
       | hash i alt =>
@@ -717,6 +776,9 @@ theorem runOps_never_raises (c : Case) (L : Layout) (n : Node) (hg : L.hres = .g
       | evolve i ch =>
         simp only [wfOps, Bool.and_eq_true, decide_eq_true_eq] at hwf
         exact ih _ hashed hr' (by rw [hlen]; simpa [hwf.1.1] using hwf.2) p hp hh
+      | assoc i ch =>
+        simp only [wfOps, Bool.and_eq_true, decide_eq_true_eq] at hwf
+        exact ih _ hashed hr' (by rw [hlen]; simpa [hwf.1.1.1] using hwf.2) p hp hh
       | set i f v =>
         simp only [wfOps, Bool.and_eq_true, decide_eq_true_eq] at hwf
         exact ih _ hashed hr' (by rw [hlen]; simpa using hwf.2) p hp hh
@@ -824,6 +886,15 @@ theorem step_fresh (c : Case) (L : Layout) (n : Node) (insts : List Inst) (op : 
       rcases hy with hy | rfl
       · exact hf y hy h hh
       · exact absurd hh (newInst_not_full L _ h)
+  | assoc i ch =>
+    simp only [step] at hy
+    cases hx : insts[i]? with
+    | none => simp only [hx] at hy; exact hf y hy h hh
+    | some x =>
+      simp only [hx, List.mem_append, List.mem_singleton] at hy
+      rcases hy with hy | rfl
+      · exact hf y hy h hh
+      · exact absurd hh (assocInst_not_full L x ch h)
   | set i f v => simp [isSetOp] at hns
 
 /-- **without field writes no hash call ever returns a stale value**: every successful hash operation of
@@ -862,6 +933,7 @@ theorem runOps_uncached (c : Case) (L : Layout) (n : Node) (hg : L.hres = .gen n
       | deepcopy i => simp [stale, isHashOp]
       | pickle i => simp [stale, isHashOp]
       | evolve i ch => simp [stale, isHashOp]
+      | assoc i ch => simp [stale, isHashOp]
       | set i f v => simp [stale, isHashOp]
     · exact ih _ (step_fresh c L n insts op hg (hnm op List.mem_cons_self) hns.1 hf) hns.2
         (fun o ho => hnm o (List.mem_cons_of_mem _ ho)) p hp
@@ -900,6 +972,7 @@ theorem wfOps_mono (c : Case) (nF : Nat) (u v : Bool) (huv : u = true → v = tr
     · exact ⟨⟨hw.1.1, huv hw.1.2⟩, ih _ _ hw.2⟩
     · exact ⟨hw.1, ih _ _ hw.2⟩
     · exact ⟨hw.1, ih _ _ hw.2⟩
+    · exact ⟨⟨⟨hw.1.1.1, huv hw.1.1.2⟩, hw.1.2⟩, ih _ _ hw.2⟩
 
 theorem wfOps_copy_uniform (c : Case) (nF : Nat) (u : Bool) :
     ∀ (ops : List Op) (n : Nat) (hashed : List Nat), wfOps c nF u n hashed ops = true →
@@ -935,6 +1008,11 @@ theorem wfOps_copy_uniform (c : Case) (nF : Nat) (u : Bool) :
       simp only [wfOps, Bool.and_eq_true] at hw
       rcases hop with rfl | hop
       · simp [isCopyOp] at hc
+      · exact ih _ _ hw.2 op hop hc
+    | assoc i ch =>
+      simp only [wfOps, Bool.and_eq_true] at hw
+      rcases hop with rfl | hop
+      · exact hw.1.1.2
       · exact ih _ _ hw.2 op hop hc
     | set i f v =>
       simp only [wfOps, Bool.and_eq_true] at hw
@@ -1041,6 +1119,15 @@ theorem step_unreadable (c : Case) (L : Layout) (n : Node) (insts : List Inst) (
       rcases hy with hy | rfl
       · exact hr y hy
       · exact newInst_unreadable L _ hk
+  | assoc i ch =>
+    simp only [step] at hy
+    cases hx : insts[i]? with
+    | none => simp only [hx] at hy; exact hr y hy
+    | some x =>
+      simp only [hx, List.mem_append, List.mem_singleton] at hy
+      rcases hy with hy | rfl
+      · exact hr y hy
+      · exact assocInst_unreadable L x ch (copyInst_unreadable L false x (hu rfl) (hr x (List.mem_of_getElem? hx)))
   | set i f v =>
     simp only [step] at hy
     cases hx : insts[i]? with
@@ -1081,6 +1168,7 @@ theorem runOps_known_shapes_raise (c : Case) (L : Layout) (n : Node) (hg : L.hre
       | deepcopy i => simp [isHashOp] at hh
       | pickle i => simp [isHashOp] at hh
       | evolve i ch => simp [isHashOp] at hh
+      | assoc i ch => simp [isHashOp] at hh
       | set i f v => simp [isHashOp] at hh
     · exact ih _ (step_unreadable c L n insts op hg hc hk (hu op List.mem_cons_self) hr)
         (fun o ho => hu o (List.mem_cons_of_mem _ ho)) p hp hh
@@ -1110,7 +1198,19 @@ theorem specOps_false_of_raise (c : Case) (L : Layout) (n : Node) (hg : L.hres =
         | deepcopy i => simp [isHashOp] at hh
         | pickle i => simp [isHashOp] at hh
         | evolve i ch => simp [isHashOp] at hh
+        | assoc i ch => simp [isHashOp] at hh
         | set i f v => simp [isHashOp] at hh
       · right; exact ih rs ⟨p, hp, hh, ho⟩
+
+theorem copyInst_vals (L : Layout) (deep : Bool) (x : Inst) : (copyInst L deep x).vals = x.vals := by
+  unfold copyInst
+  cases L.copyMode <;> simp
+  cases L.stateReset <;> simp [writeCell_vals]
+
+theorem assocInst_vals (L : Layout) (x : Inst) (ch : List (Nat × Nat)) :
+    (assocInst L x ch).vals = applyChanges x.vals ch := by
+  unfold assocInst
+  simp only [readCell_vals]
+  cases readCell L (copyInst L false x) <;> simp [writeCell_vals, copyInst_vals]
 
 end Attrs.C04
